@@ -44,6 +44,29 @@ fn sweep_programs() -> Vec<(Shape, Vec<Step>)> {
             Step::Unkey,
         ]),
         (Shape::KV, vec![]),
+        // side inputs: allow-list, lookup table with a repeated key, |side| added
+        (Shape::U, vec![
+            Step::MapWithSide(vec![Val::Int(1), Val::Int(1), Val::Int(5)], SFun::AddLen),
+            Step::FilterWithSide(vec![Val::Int(3), Val::Int(4), Val::Int(4), Val::Int(20), Val::Int(-7)], SPred::NotIn),
+            Step::MapWithSideMap(vec![pair(Val::Int(5), Val::Int(50)), pair(Val::Int(6), Val::Int(60)),
+                                      pair(Val::Int(5), Val::Int(55))], -1),
+            Step::FilterWithSide(vec![Val::Int(50), Val::Int(55), Val::Int(-1)], SPred::In),
+            Step::MapWithSide(vec![Val::Int(2), Val::Int(3)], SFun::AddSum),
+        ]),
+        // EMPTY side inputs: a block-list / length test on an empty side, a lookup in an empty map
+        (Shape::U, vec![
+            Step::FilterWithSide(vec![], SPred::NotIn),
+            Step::MapWithSide(vec![], SFun::AddSum),
+            Step::MapWithSideMap(vec![], 7),
+            Step::FilterWithSide(vec![], SPred::LenGt(0)),
+        ]),
+        (Shape::KV, vec![
+            Step::FilterWithSide(vec![], SPred::NotIn),
+            Step::FilterWithSide(vec![pair(Val::Int(0), Val::Int(3))], SPred::NotIn),
+            Step::MapValues(EFun::Add(1)),
+        ]),
+        (Shape::U, vec![Step::FilterWithSide(vec![], SPred::In)]),
+        (Shape::U, vec![Step::Map(EFun::Add(1)), Step::TryMap(EFun::Mod(5), PFun::Not(Box::new(PFun::ModEq(4, 0))))]),
         // expanding, chunk-sensitive batch function: sequential grid points only
         (Shape::U, vec![
             Step::MapBatches(4, BFun::Header),
@@ -82,6 +105,62 @@ fn gen_value_only_block(rng: &mut ibv::SplitMix64) -> Vec<Step> {
     steps
 }
 
+fn emit_try(em: &mut Emitter, src: &Src, steps: &[Step], extra: &[&str]) {
+    // a program ending in try_map is also run through collect_fail_fast (sequential)
+    if matches!(steps.last(), Some(Step::TryMap(..))) {
+        let tags = case_tags(src, steps, Mode::Seq, extra);
+        let tr: Vec<&str> = tags.iter().map(String::as_str).collect();
+        em.case("failfast", case_input(src, steps, Mode::Seq), src.len() >= 2, &tr);
+    }
+}
+fn emit_branch(em: &mut Emitter, src: &Src, pre: &[Step], a: &[Step], b: &[Step], mode: Mode, extra: &[&str]) {
+    let all = [pre, a, b].concat();
+    let mut tags = case_tags(src, &all, mode, extra);
+    tags.push("branch".into());
+    let tr: Vec<&str> = tags.iter().map(String::as_str).collect();
+    em.case("branch", branch_input(src, pre, a, b, mode), nontrivial(src, &all, mode, false), &tr);
+}
+
+/// targeted branching programs: a reused base whose LAST operator is a (value) filter / map, and
+/// two branches that each add one operator; the sibling and the base must not see it
+fn targeted_branches() -> Vec<(Shape, Vec<Step>, Vec<Step>, Vec<Step>)> {
+    let even = PFun::ModEq(2, 0);
+    let mut v = vec![];
+    let kv_pre: Vec<Vec<Step>> = vec![
+        vec![Step::FilterValues(PFun::Lt(20))],
+        vec![Step::Filter(PFun::Lt(2))],
+        vec![Step::FilterValues(PFun::Lt(25)), Step::FilterValues(PFun::Not(Box::new(PFun::Lt(-5))))],
+        vec![],
+    ];
+    let kv_a: Vec<Vec<Step>> = vec![
+        vec![Step::FilterValues(even.clone())],
+        vec![Step::Filter(PFun::ModEq(2, 1))],
+        vec![Step::FilterValues(PFun::False)],
+        vec![Step::MapValues(EFun::Mul(0))],
+    ];
+    let kv_b: Vec<Vec<Step>> = vec![
+        vec![Step::MapValues(EFun::Add(100))],
+        vec![Step::FilterValues(PFun::Not(Box::new(even.clone())))],
+        vec![Step::Unkey],
+    ];
+    for p in &kv_pre {
+        for a in &kv_a {
+            for b in &kv_b {
+                v.push((Shape::KV, p.clone(), a.clone(), b.clone()));
+            }
+        }
+    }
+    for p in [vec![Step::Filter(PFun::Lt(30))], vec![Step::Map(EFun::Add(1))], vec![]] {
+        for a in [vec![Step::Filter(even.clone())], vec![Step::Map(EFun::Mul(0))]] {
+            for b in [vec![Step::Map(EFun::Add(100))], vec![Step::Filter(PFun::Not(Box::new(even.clone())))],
+                      vec![Step::KeyBy(EFun::Mod(2)), Step::FilterValues(PFun::Lt(10))]] {
+                v.push((Shape::U, p.clone(), a.clone(), b.clone()));
+            }
+        }
+    }
+    v
+}
+
 fn generate(seed: u64, tier: Tier, em: &mut Emitter) {
     let progs = sweep_programs();
     // boundary sweep: length 0..24 x (sequential, partitions 0..len+2)
@@ -101,6 +180,9 @@ fn generate(seed: u64, tier: Tier, em: &mut Emitter) {
                 }
                 let src = sweep_src(*shape, n, n, &mut rng);
                 emit(em, &src, steps, mode, &["sweep"]);
+                if mode == Mode::Seq {
+                    emit_try(em, &src, steps, &["sweep"]);
+                }
             }
         }
     }
@@ -114,9 +196,32 @@ fn generate(seed: u64, tier: Tier, em: &mut Emitter) {
         let mode = if rng.chance(1, 3) { Mode::Seq } else { Mode::Par(parts) };
         emit(em, &src, &steps, mode, &["value_only_block"]);
     }
+    // branching programs: targeted (the base ends in a filter / map) and random
+    for (i, (shape, pre, a, b)) in targeted_branches().into_iter().enumerate() {
+        for (n, parts) in [(7usize, None), (9, Some(3)), (2, Some(5))] {
+            if tier == Tier::Quick && (i + n) % 2 == 0 {
+                continue;
+            }
+            let src = sweep_src(shape, n, i, &mut rng);
+            emit_branch(em, &src, &pre, &a, &b, parts.map_or(Mode::Seq, Mode::Par), &["targeted"]);
+        }
+    }
+    let mut made = 0;
+    while made < (if tier == Tier::Quick { 150 } else { 1500 }) {
+        let n = gen_len(&mut rng);
+        let src = gen_src(&mut rng, n, true, true);
+        let parts = gen_parts(&mut rng, src.len());
+        let mut o = GenOpts::elementwise();
+        o.side_inputs = true;
+        o.reorder_class = rng.chance(1, 10);
+        let Some((pre, a, b)) = gen_branch(&mut rng, &src, &o, parts) else { continue };
+        let mode = if rng.chance(1, 3) { Mode::Seq } else { Mode::Par(parts) };
+        emit_branch(em, &src, &pre, &a, &b, mode, &["random"]);
+        made += 1;
+    }
     // seeded random well-typed element-wise programs
     let mut rng = seed_mix(seed, 0xC02_0002);
-    let count = if tier == Tier::Quick { 1000 } else { 10000 };
+    let count = if tier == Tier::Quick { 850 } else { 9000 };
     for _ in 0..count {
         let n = if rng.chance(1, 3) { rng.below(4) as usize } else { rng.below(25) as usize };
         let src = gen_src(&mut rng, n, true, true);
@@ -125,8 +230,19 @@ fn generate(seed: u64, tier: Tier, em: &mut Emitter) {
         let mut o = GenOpts::elementwise();
         o.reorder_class = rng.chance(1, 7);
         o.header = mode == Mode::Seq;
+        o.side_inputs = true;
         let nsteps = rng.below(13) as usize;
-        let (steps, _) = gen_program(&mut rng, &src, &o, nsteps, parts);
+        let (mut steps, sim) = gen_program(&mut rng, &src, &o, nsteps, parts);
+        if sim.shape == Shape::U && rng.chance(1, 4) {
+            // fallible map as the last step: all Ok, some Err, all Err
+            let p = match rng.below(4) {
+                0 => PFun::True,
+                1 => PFun::False,
+                _ => gen_pfun(&mut rng, sim.rows.first(), 0),
+            };
+            steps.push(Step::TryMap(gen_efun(&mut rng, sim.rows.first(), 0), p));
+            emit_try(em, &src, &steps, &["random"]);
+        }
         emit(em, &src, &steps, mode, &["random"]);
     }
 }
@@ -134,6 +250,8 @@ fn generate(seed: u64, tier: Tier, em: &mut Emitter) {
 fn run(kind: &str, input: &Value) -> Value {
     match kind {
         "prog" => run_prog_case(input, DIR),
+        "failfast" => run_failfast_case(input, DIR),
+        "branch" => run_branch_case(input, DIR),
         _ => serde_json::json!(["invalid"]),
     }
 }
